@@ -17,6 +17,7 @@ EXPLANATION = (
     "never updated; new ids carry >= 64 bits from os.urandom through injective "
     "encodings; the creation branch always calls the generator. Not decided: "
     "probabilistic distinctness of random ids.")
+EXPLANATION += ' Also decided: the retirement phase of release is reachable from the half-done state, every entry point exits clean, and no start-up statement touches nameplates or mailboxes.'
 
 INJECTIVE = (".lower", ".decode", "base64.b32encode", "base64.b16encode",
              "base64.b64encode", "base64.urlsafe_b64encode", "binascii.hexlify",
@@ -50,6 +51,11 @@ def entropy_bytes(t):
 
 def run(ctx):
     model = ctx.model
+    shared.r_lookup(ctx, "R03.lookup", ('nameplates',))
+    shared.r_durable(ctx, "R03.durable", ("chan",),
+                     "after a restart the nameplate's mailbox binding is not the one the claimants were told")
+    shared.r_startup(ctx, "R03.startup", ('nameplates', 'mailboxes'),
+                     'a live nameplate loses its row (and with it its mailbox id) although no side released it')
     from .. import roles as _roles
     R = _roles.get(model)
     interp = model.interp
